@@ -70,6 +70,43 @@ def path_types(bp, x, upto=None):
     return out - neg
 
 
+def falsy_parsed_objects():
+    """classes of the subject module that are (subclasses of) ParsedObject and define `__bool__` or `__len__`:
+    their instances can be falsy, so a truthiness test on a node is a test on the user's data"""
+    out = []
+    cls = P.MODULE_CLASSES
+
+    def is_po(c, seen=()):
+        if c.name == 'ParsedObject':
+            return True
+        for b in c.bases:
+            bn = b.id if isinstance(b, ast.Name) else b.attr if isinstance(b, ast.Attribute) else None
+            if bn == 'ParsedObject' or (bn in cls and bn not in seen and is_po(cls[bn], seen + (c.name,))):
+                return True
+        return False
+    for c in cls.values():
+        if is_po(c):
+            for m in c.body:
+                if isinstance(m, ast.FunctionDef) and m.name in ('__bool__', '__len__'):
+                    out.append(f'{c.name}.{m.name}')
+                elif isinstance(m, ast.Assign) and any(isinstance(t, ast.Name) and t.id in ('__bool__', '__len__')
+                                                       for t in m.targets):
+                    out.append(f'{c.name}.{m.targets[0].id}')
+    return sorted(out)
+
+
+def truthiness_decides(bp, x):
+    """the path takes a decision on the truthiness of X itself (`if x:` / `if not x:` / `x and ...`) without
+    knowing that X is not a parsed object"""
+    decided = [st for st in bp.steps if st[0] == 'T' and (st[1] == x or st[1] == ('UOP', 'Not', x))]
+    if not decided:
+        return False
+    known_not_po = any(st[0] == 'T' and not st[2] and (isinstance_types(st[1]) or (None, set()))[0] == x
+                       and 'ParsedObject' in isinstance_types(st[1])[1] for st in bp.steps)
+    known_po = 'ParsedObject' in path_types(bp, x, upto=decided[0])
+    return not known_not_po or known_po
+
+
 def dedup_test(step):
     """a branch decision `id(x) in visited` / `id(x) not in visited` -> (x-term-or-None, key term, visited,
     is_member) ; None if the step is no membership test"""
@@ -241,10 +278,15 @@ def check_walker(fn, what, kind, bad):
 def check_visit(fn, what, bad):
     paths, body, W, NODE, helpers, stats = check_walker(fn, what, 'visit', bad)
     seen_kinds = set()
+    falsy = falsy_parsed_objects()
     for bp in body:
         ys = [s for s in bp.steps if s[0] == 'Y']
         types = path_types(bp, NODE)
         ps = pushes(bp, W, helpers)
+        if falsy and truthiness_decides(bp, NODE):
+            bad('C15-visit-yield', f'{what}: what happens to a node depends on its truthiness, and parsed objects can '
+                                   f'be falsy ({", ".join(falsy)}): an object that counts as empty is not treated as an '
+                                   f'object (not yielded / not expanded)')
         if ys:
             if len(ys) != 1 or ys[0][1] != NODE:
                 bad('C15-visit-yield', f'{what}: yields {[P.tfmt(y[1]) for y in ys]}, expected the popped node once')
@@ -304,6 +346,15 @@ def check_traverse(fn, what, bad):
     def norm_term(t):
         return P.fuse_comprehensions(substitute(t, unpack))
     body = [P.map_path(bp, norm_term) for bp in body]
+    # the work list holds _Traversing records; a list of plain tuples that become records only when they are
+    # handed out is another representation of the same walk, which these rules do not read
+    for bp in body:
+        for k, a, _ in pushes(bp, W, helpers):
+            t0 = strip_list(a[0]) if a else None
+            t0 = t0[2] if isinstance(t0, tuple) and t0[:1] == ('COMP',) and len(t0) == 4 else t0
+            if isinstance(t0, tuple) and t0[:1] == ('TUPLE',):
+                raise AnalysisError(f'{what}: the work list holds plain tuples ({P.tfmt(t0)[:60]}) instead of '
+                                    f'_Traversing records (representation not covered)')
     fin = [bp for bp in body if any(s[2] and s[1] == ('ATTR', REC, 'is_finished') for s in bp.tests())]
     ent = [bp for bp in body if any((not s[2]) and s[1] == ('ATTR', REC, 'is_finished') for s in bp.tests())]
     if not fin or not ent:
@@ -316,9 +367,13 @@ def check_traverse(fn, what, bad):
         if pushes(bp, W, helpers):
             bad('C15-events', f'{what}: a finished marker is expanded again')
     kinds = set()
+    falsy = falsy_parsed_objects()
     for bp in ent:
         ys = [s for s in bp.steps if s[0] == 'Y']
         ps = pushes(bp, W, helpers)
+        if falsy and truthiness_decides(bp, CHILD):
+            bad('C15-events', f'{what}: what happens to a child depends on its truthiness, and parsed objects can be '
+                              f'falsy ({", ".join(falsy)})')
         skipped = bp.end and bp.end[0] == 'continue' and not ys and not ps
         if skipped:
             continue
@@ -451,7 +506,12 @@ def check_transform(fns, what, bad):
     stats['paths'] += len(paths)
     self_call = lambda arg: ('CALL', ('VAR', rt.name), arg, CB)
     kinds = set()
+    falsy = falsy_parsed_objects()
     for p in paths:
+        if falsy and truthiness_decides(p, N):
+            bad('C16-once', f'{what}: what _transform does with a node depends on its truthiness, and parsed objects '
+                            f'can be falsy ({", ".join(falsy)}): an object that counts as empty is not handed to the '
+                            f'callbacks')
         all_steps = list(p.steps)
         for s in p.steps:
             if s[0] == 'LOOP':
@@ -542,6 +602,12 @@ def check_transform(fns, what, bad):
                         bad('C16-fields', f'{what}: a field is recorded as changed without the identity test '
                                           f'`now is not was`')
             if upd is None:
+                staged = [e for bp in lp[2] for e in bp.events() if e[1].startswith('call:')
+                          and any(x == NOW for x in P.subterms(e[3]))]
+                if staged:
+                    # the transformed children are collected first and compared later: not a shape these rules read
+                    raise AnalysisError(f'{what}: _transform stages the transformed children in '
+                                        f'{P.tfmt(staged[0][2])} before deciding what changed (representation not covered)')
                 bad('C16-fields', f'{what}: transformed children are never recorded')
                 continue
             # post-order: the callback is applied last, to the rebuilt node
@@ -598,7 +664,22 @@ def check_transform(fns, what, bad):
     if not loops:
         raise AnalysisError(f'{what}: callback chain has no loop')
     lp = loops[0]
-    if not (isinstance(lp[1], ast.For) and isinstance(lp[1].iter, ast.Name) and lp[1].iter.id == vararg):
+    if isinstance(lp[1], ast.While):
+        # head-peeling form of the same iteration:  rest = callbacks; while rest: f, rest = rest[0], rest[1:]
+        rn = lp[1].test.id if isinstance(lp[1].test, ast.Name) else None
+        PH = ('PHI', rn, lp[3])
+        inits = [e[3] for p in cps for e in p.events('assign') if e[2] == rn]
+        peeled = rn is not None and inits and all(v == ('VAR', vararg) for v in inits) and all(
+            isinstance(bp.env.get(rn), tuple) and bp.env[rn][:2] == ('SUB', PH)
+            and P.tfmt(bp.env[rn][2]) == '(SLICE 1 None None)' for bp in lp[2])
+        if not peeled:
+            raise AnalysisError(f'{what}: the callback chain is a while loop that is not the head-peeling iteration '
+                                f'over the callbacks (`{ast.unparse(lp[1].test)}`)')
+        head = ('SUB', PH, ('CONST', '0'))
+        body_paths = [P.map_path(bp, lambda t: substitute(t, {head: ('ITEM', ('VAR', vararg))})) for bp in lp[2]]
+        fvar_names = {e[2] for bp in lp[2] for e in bp.events('assign') if e[3] == head}
+        lp = (lp[0], lp[1], body_paths) + tuple(lp[3:])
+    elif not (isinstance(lp[1], ast.For) and isinstance(lp[1].iter, ast.Name) and lp[1].iter.id == vararg):
         bad('C16-order', f'{what}: callbacks are not applied in the order given '
                          f'(`for f in {ast.unparse(lp[1].iter)}`)')
     for bp in lp[2]:
@@ -608,6 +689,8 @@ def check_transform(fns, what, bad):
         # applications = call expressions of the loop variable evaluated on this path (a value that is
         # merely passed on - returned by a local helper, re-assigned - is not applied again)
         fvar = lp[1].target.id if isinstance(lp[1], ast.For) and isinstance(lp[1].target, ast.Name) else None
+        if isinstance(lp[1], ast.While) and len(fvar_names) == 1:
+            fvar = next(iter(fvar_names))
         applied = {}
         for e in calls:
             stn = e[4] if len(e) > 4 else None
